@@ -75,7 +75,7 @@ def main():
             notes = open(os.path.join(INC, pid, m + ".md")).read() if os.path.exists(os.path.join(INC, pid, m + ".md")) else ""
             res["demos"] = []
             for demo in demos[:2]:
-                tsan = "fsanitize=thread" in notes and pid == "C13" and m == "m1"
+                tsan = "fsanitize=thread" in notes and pid == "C13" and m in ("m1", "m3")
                 rc_m, out_m = run_demo(demo, S + "/include", S + "/_build/chai", S, "mut", tsan)
                 rc_c, out_c = run_demo(demo, "/repo/include", "/repo/_build/chai", S, "clean", tsan)
                 res["demos"].append({"demo": os.path.basename(demo), "mutated_exit": rc_m, "clean_exit": rc_c, "mutated_tail": out_m[-250:], "clean_tail": out_c[-150:]})
